@@ -85,6 +85,8 @@ type Fam struct {
 	delivered map[string]bool // tx hashes delivered OK (tx index stand-in)
 	donated  sdk.Int          // coins sent straight to the pool address
 	minStake int64
+	index    *TxIndex
+	blockTxs []string // hashes of the txs delivered in the current block (indexed at Commit)
 	minChanged, windowChanged bool
 	mea      int64
 	// monitor bookkeeping
@@ -169,7 +171,14 @@ func (f *Fam) state() string {
 func (f *Fam) doInit(w []string) string {
 	m := kv(w)
 	f.db = dbm.NewMemDB()
-	f.app = NewApp(f.db, "tcp://127.0.0.1:1", sdk.PruningOptions{})
+	rpc := "tcp://127.0.0.1:1"
+	if ix := StartTxIndex(); ix != nil {
+		ix.Reset()
+		rpc = ix.Addr
+		f.index = ix
+	}
+	f.blockTxs = nil
+	f.app = NewApp(f.db, rpc, sdk.PruningOptions{})
 	f.dead, f.height, f.inBlock = false, 0, false
 	f.minChanged, f.windowChanged = false, false
 	f.tm, f.tmHist, f.pending = map[string]int64{}, nil, nil
@@ -343,6 +352,13 @@ func (f *Fam) doEnd() string {
 
 func (f *Fam) doCommit() string {
 	r := f.guard(func() string { f.app.Commit(); return "ok" })
+	if f.index != nil { // Tendermint indexes every transaction of the committed block
+		for _, h := range f.blockTxs {
+			f.index.Add(h)
+			f.delivered[h] = true
+		}
+	}
+	f.blockTxs = nil
 	f.inBlock = false
 	return r + " | " + f.state()
 }
@@ -444,6 +460,7 @@ func (f *Fam) doTx(w []string) (string, []byte, sdk.Msg, txSpec) {
 	res := f.guard(func() string {
 		switch t.mode {
 		case "deliver":
+			f.blockTxs = append(f.blockTxs, fmt.Sprintf("%x", tmtypes.Tx(bz).Hash()))
 			r := f.app.DeliverTx(abci.RequestDeliverTx{Tx: bz})
 			code, log = r.Code, r.Log
 		case "check":
